@@ -2,7 +2,7 @@
 use crate::choice::{Src, splitmix};
 use crate::driver::{Ctx, Obs, Violation, viol};
 use crate::lib_api::{
-    LibErr, MSGS, msg_ops, parse_auto, plugin_parse, plugin_publish, plugin_validate,
+    LibErr, MSGS, msg_ops, parse_auto, plugin_parse, plugin_parse_payload, plugin_publish, plugin_validate,
 };
 use crate::msgkit::*;
 use crate::props::c03::canonicalise;
@@ -25,16 +25,32 @@ pub struct DispCase {
     /// the body comes from the rule-relevant generator: acceptance is not demanded, only agreement
     #[serde(default)]
     pub rule_body: bool,
+    /// text layout: 0 = blocks back to back, LF inside block 4; 1 = blocks separated by LF (as the library
+    /// writes); 2 = CRLF everywhere (between blocks and inside block 4); 3 = back to back, CRLF in block 4
+    #[serde(default)]
+    pub layout: u8,
 }
 
 impl DispCase {
     pub fn text(&self) -> String {
-        if self.output_header {
-            format!("{{1:F01BANKDEFFAXXX0000000000}}{{2:O{}1200240101BANKUS33AXXX00000000002401011201N}}{{4:
-{}-}}", self.announced, self.body)
+        let b2 = if self.output_header {
+            format!("O{}1200240101BANKUS33AXXX00000000002401011201N", self.announced)
         } else {
-            format!("{{1:F01BANKDEFFAXXX0000000000}}{{2:I{}BANKUS33AXXXN}}{{4:
-{}-}}", self.announced, self.body)
+            format!("I{}BANKUS33AXXXN", self.announced)
+        };
+        let sep = match self.layout {
+            1 => "\n",
+            2 => "\r\n",
+            _ => "",
+        };
+        let t = format!(
+            "{{1:F01BANKDEFFAXXX0000000000}}{sep}{{2:{b2}}}{sep}{{4:\n{}-}}",
+            self.body
+        );
+        if self.layout >= 2 {
+            t.replace("\r\n", "\n").replace('\n', "\r\n")
+        } else {
+            t
         }
     }
 }
@@ -246,6 +262,28 @@ pub fn oracle(c: &DispCase, obs: &mut Obs) -> Vec<Violation> {
                     }
                 }
             }
+            // the same text handed over as the message payload (source = "payload")
+            match plugin_parse_payload(&x) {
+                Ok((data, _)) => {
+                    if data != t.json {
+                        out.push(viol(
+                            format!("C12|plugin-parse-payload|MT{}|data-differs", c.announced),
+                            "parse_mt (payload source) data differs from typed JSON".to_string(),
+                        ));
+                    }
+                }
+                Err(e) => {
+                    if !e.is_panic() {
+                        out.push(viol(
+                            format!("C12|plugin-parse-payload|MT{}|rejected", c.announced),
+                            format!(
+                                "parse_mt (payload source) rejects what parse::<T> accepts: {}",
+                                e.text()
+                            ),
+                        ));
+                    }
+                }
+            }
             match plugin_validate(&x) {
                 Ok(v) => {
                     if v.get("message_type").and_then(|x| x.as_str()) != Some(c.announced.as_str())
@@ -333,7 +371,7 @@ pub fn oracle(c: &DispCase, obs: &mut Obs) -> Vec<Violation> {
 }
 
 pub fn run(ctx: &Ctx) {
-    ctx.add_rule("enumerated: for each of the 30 types, K valid bodies (K=5 quick, 16 thorough; the first minimal, the second with every optional field present), input and output application headers x all 30 requested types through parse::<T>, x all 1000 three-digit codes in block 2 through parse_auto / parse_mt / validate_mt / publish_mt and ParsedSwiftMessage accessors; plus 40 (thorough 400) rule-relevant bodies per type from the C04 generator (most violate network rules) through the typed, auto-detecting and plugin entry points of their own type; non-trivial = all; distinct by (announced, requested, text)");
+    ctx.add_rule("enumerated: for each of the 30 types, K valid bodies (K=5 quick, 16 thorough; the first minimal, the second with every optional field present), input and output application headers x all 30 requested types through parse::<T>, x all 1000 three-digit codes in block 2 through parse_auto / parse_mt / validate_mt / publish_mt and ParsedSwiftMessage accessors (parse_mt with the text in a data field and as the message payload); the first two bodies also in three other text layouts (blocks separated by LF, CRLF everywhere, CRLF inside block 4 only); plus 40 (thorough 400) rule-relevant bodies per type from the C04 generator (most violate network rules) through the typed, auto-detecting and plugin entry points of their own type; non-trivial = all; distinct by (announced, requested, text)");
     ctx.exhaustive("30 x 30 (announced, requested) pairs; all 1000 type codes per body");
     let k = ctx.n(5, 16) as u64;
     let kr = ctx.n(40, 400) as u64;
@@ -359,6 +397,7 @@ pub fn run(ctx: &Ctx) {
                             body: b.clone(),
                             output_header,
                             rule_body: false,
+                            layout: 0,
                         });
                     }
                 }
@@ -374,7 +413,26 @@ pub fn run(ctx: &Ctx) {
                         output_header: code % 2 == 1,
                         body: b.clone(),
                         rule_body: false,
+                            layout: 0,
                     });
+                }
+            }
+            // text layouts: the first two bodies of the type in the three other layouts, own type, typed and auto
+            for j in 0..k.min(2) {
+                if let Some(b) = body(mt, j, seed) {
+                    for layout in 1..=3u8 {
+                        for requested in [mt.to_string(), String::new()] {
+                            v.push(DispCase {
+                                body_mt: mt.to_string(),
+                                announced: mt.to_string(),
+                                requested,
+                                body: b.clone(),
+                                output_header: layout == 2,
+                                rule_body: false,
+                                layout,
+                            });
+                        }
+                    }
                 }
             }
             // rule-violating bodies: own type only, typed + auto + plugins, both header forms
@@ -388,6 +446,7 @@ pub fn run(ctx: &Ctx) {
                         body: b.clone(),
                         output_header,
                         rule_body: true,
+                        layout: 0,
                     });
                     v.push(DispCase {
                         body_mt: mt.to_string(),
@@ -396,6 +455,7 @@ pub fn run(ctx: &Ctx) {
                         body: b.clone(),
                         output_header,
                         rule_body: true,
+                        layout: 0,
                     });
                 }
             }
